@@ -141,4 +141,225 @@ theorem gid_length_check (tags : List Tag) (g : Bytes) (h : extractGid tags = .o
       v.length = 64 ∧ hexDec v = some g :=
   extractGid_ok tags g h
 
+/-! ### 4. key-package events -/
+
+/-- `validate_key_package_tags` accepts **iff** the explicit predicate `KpTagsSpec` holds:
+    version = "1.0" ∧ ciphersuite = "0x0001" ∧ extensions ⊇ required (all well-formed) ∧ ≥ 1 relay, all
+    valid ∧ exactly one non-empty hex `i` value — each read from the FIRST tag of its kind -/
+theorem kp_tags_accept_iff (env : Env) (tags : List Tag) : kpTagsOk env tags = true ↔ KpTagsSpec env tags :=
+  kpTagsOk_iff env tags
+
+/-- `parse_key_package` accepts **iff** kind = 443, the tags are valid, some `encoding` tag says base64,
+    the content is a valid key package, its credential identity is the event author, and the first
+    `i` tag decodes to the key package's reference -/
+theorem kp_accept_iff (env : Env) (ev : KpEvent) :
+    parseKp env ev = .ok ↔
+      ev.kind = Generated.kindMlsKeyPackage ∧ KpTagsSpec env ev.tags ∧ hasBase64Encoding ev.tags = true ∧
+      ev.content = .ok ∧ ev.credIdentity.length = 32 ∧ ev.credIdentity = ev.author ∧
+      iTagBytes ev.tags = some ev.kpRef := by
+  rw [parseKp_ok_iff, kpTagsOk_iff]
+
+/-- **binding**: an accepted key-package event has kind 443, its credential identity IS the event's
+    author, its first `i` tag IS (the hex of) the computed KeyPackageRef, and it carries an
+    `encoding` tag whose value is `base64` up to ASCII case -/
+theorem kp_bound (env : Env) (ev : KpEvent) (h : parseKp env ev = .ok) :
+    ev.kind = 443 ∧ ev.credIdentity = ev.author ∧
+    (∃ t v, firstTag .i ev.tags = some t ∧ t.content = some v ∧ hexDec v = some ev.kpRef) ∧
+    (∃ t ∈ ev.tags, t.name = .encoding ∧ ∃ v, t.content = some v ∧ lower v = Generated.encodingTagValue) := by
+  obtain ⟨hk, _, he, _, _, hid, hi⟩ := (kp_accept_iff env ev).mp h
+  refine ⟨hk, hid, ?_, ?_⟩
+  · unfold iTagBytes at hi
+    cases hf : firstTag .i ev.tags with
+    | none => simp [hf] at hi
+    | some t =>
+      cases hc : t.content with
+      | none => simp [hf, hc] at hi
+      | some v => simp only [hf, hc] at hi; exact ⟨t, v, rfl, hc, hi⟩
+  · unfold hasBase64Encoding at he
+    simp only [List.any_eq_true, Bool.and_eq_true, beq_iff_eq] at he
+    obtain ⟨t, ht, hn, hv⟩ := he
+    cases hc : t.content with
+    | none => simp [hc] at hv
+    | some v => simp only [hc, beq_iff_eq] at hv; exact ⟨t, ht, hn, v, hc, hv⟩
+
+/-- each mutation the property names is refused (contrapositives of `kp_accept_iff`) -/
+theorem kp_reject_wrong_kind (env : Env) (ev : KpEvent) (h : ev.kind ≠ 443) : parseKp env ev ≠ .ok :=
+  fun hk => h (kp_bound env ev hk).1
+theorem kp_reject_identity (env : Env) (ev : KpEvent) (h : ev.credIdentity ≠ ev.author) : parseKp env ev ≠ .ok :=
+  fun hk => h (kp_bound env ev hk).2.1
+theorem kp_reject_ref_mismatch (env : Env) (ev : KpEvent) (h : iTagBytes ev.tags ≠ some ev.kpRef) :
+    parseKp env ev ≠ .ok :=
+  fun hk => h ((kp_accept_iff env ev).mp hk).2.2.2.2.2.2
+theorem kp_reject_no_encoding (env : Env) (ev : KpEvent) (h : ∀ t ∈ ev.tags, t.name ≠ .encoding) :
+    parseKp env ev ≠ .ok := by
+  intro hk
+  obtain ⟨t, ht, hn, _⟩ := (kp_bound env ev hk).2.2.2
+  exact h t ht hn
+theorem kp_reject_bad_tags (env : Env) (ev : KpEvent) (h : ¬ KpTagsSpec env ev.tags) : parseKp env ev ≠ .ok :=
+  fun hk => h ((kp_accept_iff env ev).mp hk).2.1
+
+/-- **what the library writes, its own parser accepts** — provided the relay list is not empty -/
+theorem kp_create_accepted (env : Env) (relays : List Bytes) (p : Bool) (ref author : Bytes)
+    (hne : relays ≠ []) (hr : ∀ r ∈ relays, (env.relayParse r).isSome = true)
+    (hb : isBytes ref = true) (hrl : ref ≠ []) (ha : author.length = 32) :
+    parseKp env { kind := Generated.kindMlsKeyPackage, tags := kpCreate relays p ref, content := .ok,
+                  author := author, credIdentity := author, kpRef := ref } = .ok := by
+  have hhex : hexEnc ref ≠ [] := by
+    cases ref with
+    | nil => exact absurd rfl hrl
+    | cons a as => simp [hexEnc]
+  have hdec := hexDec_hexEnc ref hb
+  have hrel : relaysOk env { name := .relays, vals := relays } = true :=
+    (relaysOk_iff env _).mpr ⟨hne, hr⟩
+  have hi : iOk { name := .i, vals := [hexEnc ref] } = true :=
+    (iOk_iff _).mpr ⟨hexEnc ref, rfl, hhex, by simp [hdec]⟩
+  have hpv : pvOk { name := .protoVer, vals := [Generated.kpProtocolVersion] } = true := by
+    simp [pvOk, Tag.content]
+  have hcs : csOk { name := .ciphersuite, vals := [Generated.kpCiphersuiteTag] } = true := by decide
+  have hext : extOk { name := .extensions, vals := Generated.kpCreatedExtensionTags } = true := by decide
+  rw [parseKp_ok_iff]
+  refine ⟨rfl, ?_, ?_, rfl, ha, rfl, ?_⟩
+  · cases p <;> simp [kpTagsOk, kpCreate, firstTag, hpv, hcs, hext, hrel, hi]
+  · cases p <;> simp [hasBase64Encoding, kpCreate, Tag.content] <;> decide
+  · cases p <;> simp [iTagBytes, kpCreate, firstTag, Tag.content, hdec]
+
+/-- the full-strength statement (no condition on the relay list) — FALSE of the code -/
+def kp_create_accepted_full : Prop :=
+  ∀ (env : Env) (relays : List Bytes) (p : Bool) (ref author : Bytes),
+    (∀ r ∈ relays, (env.relayParse r).isSome = true) → isBytes ref = true → ref ≠ [] → author.length = 32 →
+    parseKp env { kind := Generated.kindMlsKeyPackage, tags := kpCreate relays p ref, content := .ok,
+                  author := author, credIdentity := author, kpRef := ref } = .ok
+
+/-- witness: `create_key_package_for_event(pk, [])` writes `["relays"]`, which `parse_key_package`
+    refuses ("Relays tag must have at least one relay URL") — corpus/C15/zero_relays.trace -/
+theorem kp_create_zero_relays_refused : ¬ kp_create_accepted_full := by
+  intro h
+  have := h stdEnv [] false (List.replicate 32 171) (List.replicate 32 161)
+    (by intro r hr; cases hr) (by decide) (by decide) (by decide)
+  revert this
+  decide
+
+example : ∃ relays : List Bytes, relays ≠ [] ∧ ∀ r ∈ relays, (stdEnv.relayParse r).isSome = true :=
+  ⟨[[119, 115, 115, 58, 47, 47, 97, 46, 105, 111]], by decide, by decide⟩
+
+/-! ### 5. welcome rumors -/
+
+/-- the explicit acceptance predicate of `validate_welcome_event` -/
+structure WelcomeSpec (env : Env) (r : Rumor) : Prop where
+  kind : r.kind = Generated.kindMlsWelcome
+  count : Generated.welcomeMinTags ≤ r.tags.length
+  relaysValid : ∀ t ∈ r.tags, t.name = .relays → ∀ v ∈ t.vals, (env.relayParse v).isSome = true
+  clientNonEmpty : ∀ t ∈ r.tags, t.name = .client → ∃ v, t.content = some v ∧ v ≠ []
+  encodingExact : ∀ t ∈ r.tags, t.name = .encoding → t.content = some Generated.encodingTagValue
+  hasRelays : ∃ t ∈ r.tags, t.name = .relays ∧ t.vals ≠ []
+  hasEvent : ∃ t ∈ r.tags, t.name = .e ∧ ∃ v, t.content = some v ∧ v ≠ []
+  hasEncoding : ∃ t ∈ r.tags, t.name = .encoding
+
+theorem welcome_accept_iff (env : Env) (r : Rumor) : validateWelcome env r = true ↔ WelcomeSpec env r := by
+  unfold validateWelcome
+  rw [wScan_eq]
+  constructor
+  · intro h
+    by_cases hk : r.kind ≠ Generated.kindMlsWelcome
+    · rw [if_pos hk] at h; cases h
+    · rw [if_neg hk] at h
+      by_cases hc : r.tags.length < Generated.welcomeMinTags
+      · rw [if_pos hc] at h; cases h
+      · rw [if_neg hc] at h
+        by_cases hb : r.tags.any (wTagBad env) = true
+        · rw [if_pos hb] at h; cases h
+        · rw [if_neg hb] at h
+          simp only [Bool.false_or, Bool.and_eq_true, List.any_eq_true] at h
+          obtain ⟨⟨⟨t1, m1, s1⟩, ⟨t2, m2, s2⟩⟩, ⟨t3, m3, s3⟩⟩ := h
+          have hall : ∀ t ∈ r.tags, wTagBad env t = false := by
+            intro t ht
+            cases hbt : wTagBad env t with
+            | false => rfl
+            | true => exact absurd (List.any_eq_true.mpr ⟨t, ht, hbt⟩) hb
+          simp only [wSetsRelays, Bool.and_eq_true, beq_iff_eq, Bool.not_eq_true', List.isEmpty_eq_false_iff] at s1
+          simp only [wSetsE, Bool.and_eq_true, beq_iff_eq] at s2
+          simp only [wSetsEnc, beq_iff_eq] at s3
+          refine ⟨by simpa using hk, by omega, ?_, ?_, ?_, ⟨t1, m1, s1.1, s1.2⟩, ⟨t2, m2, s2.1, ?_⟩, ⟨t3, m3, s3⟩⟩
+          · intro t ht; exact ((wTagBad_false_iff env t).mp (hall t ht)).1
+          · intro t ht; exact ((wTagBad_false_iff env t).mp (hall t ht)).2.1
+          · intro t ht; exact ((wTagBad_false_iff env t).mp (hall t ht)).2.2
+          · cases hc2 : t2.content with
+            | none => simp [hc2] at s2
+            | some v =>
+              have := s2.2; simp only [hc2, Bool.not_eq_true', List.isEmpty_eq_false_iff] at this
+              exact ⟨v, rfl, this⟩
+  · intro h
+    have hk : ¬ r.kind ≠ Generated.kindMlsWelcome := by simp [h.kind]
+    have hc : ¬ r.tags.length < Generated.welcomeMinTags := by have := h.count; omega
+    have hb : ¬ r.tags.any (wTagBad env) = true := by
+      intro hb
+      obtain ⟨t, ht, hbt⟩ := List.any_eq_true.mp hb
+      have := (wTagBad_false_iff env t).mpr ⟨h.relaysValid t ht, h.clientNonEmpty t ht, h.encodingExact t ht⟩
+      rw [this] at hbt; cases hbt
+    rw [if_neg hk, if_neg hc, if_neg hb]
+    obtain ⟨t1, m1, n1, v1⟩ := h.hasRelays
+    obtain ⟨t2, m2, n2, v2, c2, ne2⟩ := h.hasEvent
+    obtain ⟨t3, m3, n3⟩ := h.hasEncoding
+    have a1 : r.tags.any wSetsRelays = true :=
+      List.any_eq_true.mpr ⟨t1, m1, by simp [wSetsRelays, n1, v1]⟩
+    have a2 : r.tags.any wSetsE = true :=
+      List.any_eq_true.mpr ⟨t2, m2, by simp [wSetsE, n2, c2, ne2]⟩
+    have a3 : r.tags.any wSetsEnc = true :=
+      List.any_eq_true.mpr ⟨t3, m3, by simp [wSetsEnc, n3]⟩
+    simp [a1, a2, a3]
+
+theorem welcome_reject_wrong_kind (env : Env) (r : Rumor) (h : r.kind ≠ 444) : validateWelcome env r = false := by
+  cases hv : validateWelcome env r with
+  | false => rfl
+  | true => exact absurd ((welcome_accept_iff env r).mp hv).kind h
+
+theorem welcome_reject_no_encoding (env : Env) (r : Rumor) (h : ∀ t ∈ r.tags, t.name ≠ .encoding) :
+    validateWelcome env r = false := by
+  cases hv : validateWelcome env r with
+  | false => rfl
+  | true =>
+    obtain ⟨t, ht, hn⟩ := ((welcome_accept_iff env r).mp hv).hasEncoding
+    exact absurd hn (h t ht)
+
+theorem welcome_reject_non_base64 (env : Env) (r : Rumor) (t : Tag) (ht : t ∈ r.tags) (hn : t.name = .encoding)
+    (hv : t.content ≠ some Generated.encodingTagValue) : validateWelcome env r = false := by
+  cases hval : validateWelcome env r with
+  | false => rfl
+  | true => exact absurd (((welcome_accept_iff env r).mp hval).encodingExact t ht hn) hv
+
+/-- **what the library writes, its own parser accepts** — provided the group has at least one relay -/
+theorem welcome_create_accepted (env : Env) (relays : List Bytes) (eid : Bytes)
+    (hne : relays ≠ []) (hr : ∀ r ∈ relays, (env.relayParse r).isSome = true) (he : eid ≠ []) :
+    validateWelcome env { kind := Generated.kindMlsWelcome, tags := welcomeCreate relays eid } = true := by
+  rw [welcome_accept_iff]
+  refine ⟨rfl, by simp [welcomeCreate]; decide, ?_, ?_, ?_, ?_, ?_, ?_⟩
+  · intro t ht hn v hv
+    simp only [welcomeCreate, List.mem_cons, List.not_mem_nil, or_false] at ht
+    rcases ht with rfl | rfl | rfl | rfl <;> simp_all
+  · intro t ht hn
+    simp only [welcomeCreate, List.mem_cons, List.not_mem_nil, or_false] at ht
+    rcases ht with rfl | rfl | rfl | rfl <;> simp_all [Tag.content]
+    decide
+  · intro t ht hn
+    simp only [welcomeCreate, List.mem_cons, List.not_mem_nil, or_false] at ht
+    rcases ht with rfl | rfl | rfl | rfl <;> simp_all [Tag.content]
+  · exact ⟨{ name := .relays, vals := relays }, by simp [welcomeCreate], rfl, hne⟩
+  · exact ⟨{ name := .e, vals := [eid] }, by simp [welcomeCreate], rfl, eid, rfl, he⟩
+  · exact ⟨{ name := .encoding, vals := [Generated.encodingTagValue] }, by simp [welcomeCreate], rfl⟩
+
+/-- the full-strength statement (any relay list, including the empty one) — FALSE of the code -/
+def welcome_create_accepted_full : Prop :=
+  ∀ (env : Env) (relays : List Bytes) (eid : Bytes),
+    (∀ r ∈ relays, (env.relayParse r).isSome = true) → eid ≠ [] →
+    validateWelcome env { kind := Generated.kindMlsWelcome, tags := welcomeCreate relays eid } = true
+
+/-- witness: a group created with ZERO relays produces welcome rumors whose `["relays"]` tag has no
+    value; `validate_welcome_event` then never sets `has_relays` and `process_welcome` returns
+    `InvalidWelcomeMessage` — corpus/C15/zero_relays.trace -/
+theorem welcome_create_zero_relays_refused : ¬ welcome_create_accepted_full := by
+  intro h
+  have := h stdEnv [] [52, 50] (by intro r hr; cases hr) (by decide)
+  revert this
+  decide
+
 end MdkVerif.Props.C15
